@@ -17,7 +17,8 @@ EXHAUSTIVE = {"quick": False, "thorough": False}
 ASSUMPTIONS = [
     "corruptions act on the octets of the frame, which are then delivered in an intact SLIP envelope; wire-level flips that create or destroy a delimiter are the subject of C12 and fall under the arbitrary-octet-sequence part of the statement",
     "bursts are contiguous in transmission order of a serial line (least significant bit of every octet first) - the order CRC-16/ARC is defined over",
-    "two-bit errors are guaranteed to be detected only within the period of the generator polynomial (32767 bits = 4095 octets); the theorem carries that bound",
+    "two-bit errors: detection follows from the period of the generator polynomial (32767 bits) for frames below 4095 octets; this is NOT proved here - the two-bit class is covered by enumeration in the differential run only (every pair inside the protected fields of the corpus frames in the thorough tier)",
+    "bursts that touch both octet 11 (last octet of the block-size field) and the header checksum behind it are outside what the theorems cover and outside what the code can detect: recorded known finding with a proved witness (Ufw.Props.C07.burst_across_size_and_checksum_accepted)",
     "lean/Ufw/Model/Regp.lean is a hand transcription of parse_header / payload_plausible / check_payload / regp_recv / regp_process tied to the code by the correspondence run; Spec.Regp.classify is the independent reading of doc/regp.txt",
 ]
 TRUSTED = ["correspondence harness harness/h_regp.c + tools/lib/vf.py (verdict, backend call log, reply octets)"]
@@ -28,14 +29,16 @@ TECHNIQUE = ("Lean 4 proofs: the model's verdict on an arbitrary octet string eq
 LEVEL_TEXT = ("Machine-checked proof over the Lean model of the receiver: for every octet string the verdict (accept / bad header encoding / bad header checksum / implausible "
               "payload size / bad payload checksum) equals Spec.Regp.classify written from doc/regp.txt - in particular the payload checksum is verified whenever the frame "
               "declares one; a frame whose verdict is not accept is never handed to the backend and never acknowledged, header faults are answered with the META message, "
-              "payload faults of requests with the error response; the CRC detects every non-zero error pattern confined to a 16-bit window of a checksummed region.  "
+              "payload faults of requests with the error response; CRC-16/ARC changes under every non-zero error pattern confined to a 16-bit window, for messages of any length, hence a burst inside sequence number / "
+              "address / block size of an accepted frame with header checksum is classified as bad header checksum and a burst inside the payload of a frame with payload checksum as bad payload checksum "
+              "(two-bit errors and the one-bit errors of word 0 are enumerated, not proved; bursts straddling block size and header checksum are a recorded finding).  "
               "Tied to the C code by enumerating all 1-bit flips, bursts, truncations and extensions of a frame corpus and all option-bit combinations.")
 LEVEL_NOTE = "Trusted: Lean kernel, axioms propext/Classical.choice/Quot.sound + bv_decide axioms (CRC step lemmas); hand-written model tied by the harness."
 ALLOW_BV = True
 
 
 def theorem_for(d):
-    return "Ufw.Props.C07 (verdict_eq_spec / rejected_not_executed / crc_burst16)"
+    return "Ufw.Props.C07 (verdict_eq_spec / rejected_not_executed / header_burst_rejected / payload_burst_rejected)"
 
 
 def rpf():
